@@ -48,7 +48,7 @@ struct File {
 };
 
 // targeted mutation applied while rendering
-struct Mut { std::string cls = ""; long target = -1; int arg = 0; };
+struct Mut { std::string cls = ""; long target = -1; int arg = 0; bool decoy = true; };
 
 Val mkVal(const std::string & t) { return Val{t, std::strtod(t.c_str(), nullptr)}; }
 
@@ -259,7 +259,7 @@ struct Renderer {
             if (!plain && r.coin(1, 5)) pre.push_back("discount: 0.25");      // overridden by the later line
             pre.push_back("discount" + std::string(r.coin() ? ": " : " : ") + f.disc.txt);
         }
-        if (mut.cls == "unknown_name" && mut.arg % 7 >= 5) {
+        if (mut.cls == "unknown_name" && mut.arg % 7 >= 5 && mut.decoy) {
             // names of an overridden declaration are gone: the later line replaces the whole map
             auto stale = [&](const char * kw, size_t n) { std::string l = std::string(kw) + ":"; for (size_t i = 0; i < n; ++i) l += " stale" + std::to_string(i); pre.push_back(l); };
             stale("states", f.S); stale("actions", f.A); if (f.pomdp || f.declareO) stale("observations", f.O);
@@ -387,6 +387,32 @@ void runText(bool pomdp, const std::string & text, const std::function<void(Line
         }
         std::puts("#stat model_constructed 1");
     } catch (const std::exception & e) { L << "cerr" << errClass(e); }
+    L.emit();
+}
+
+// one parse on a given parser OBJECT, printed in the outcome format of the protocol
+void emitParse(Line & L, AIToolbox::CassandraParser & p, bool pomdp, const std::string & text) {
+    try {
+        std::istringstream is(text);
+        if (pomdp) {
+            const auto [S, A, O, T, R, W, d] = p.parsePOMDP(is);
+            L << "ok" << S << A << O << d; dump(L, T, S, A, S); dump(L, R, S, A, S); dump(L, W, S, A, O);
+        } else {
+            const auto [S, A, T, R, d] = p.parseMDP(is);
+            L << "ok" << S << A << (size_t)0 << d; dump(L, T, S, A, S); dump(L, R, S, A, S); L << (size_t)0;
+        }
+    } catch (const std::exception & e) { L << "err" << errClass(e); }
+}
+
+// REUSE of a parser object: text A is parsed first (outcome ignored), then text B on the same object; printed next to
+// the outcome of B on a fresh object.  Nothing of A may survive.
+void runReuse(bool pomdpA, const std::string & textA, bool pomdpB, const std::string & textB) {
+    if (hugeSizes(textA) || hugeSizes(textB)) { std::puts("#stat screened_huge_sizes 1"); return; }
+    Line L; L << "C18" << "reuse" << (pomdpB ? "pomdp" : "mdp") << hex(textA) << hex(textB) << "|";
+    { AIToolbox::CassandraParser fresh; emitParse(L, fresh, pomdpB, textB); }
+    AIToolbox::CassandraParser p;
+    try { std::istringstream is(textA); if (pomdpA) p.parsePOMDP(is); else p.parseMDP(is); } catch (const std::exception &) {}
+    emitParse(L, p, pomdpB, textB);
     L.emit();
 }
 
@@ -526,6 +552,23 @@ void verif_case(Rng & rng, long idx, const std::string &) {
         std::printf("#stat mutant_%s 1\n", m.cls.c_str());
         // unknown-name mutants on a `*`-free position only make sense when the replaced token was an index
         runText(f.pomdp, text, REJ(m.cls));
+    } else if (stream == 11) {                         // reuse of one parser object over two texts
+        File a = genFile(rng, true, false);
+        // A always declares names, the ones a stale table would still resolve
+        a.sn.clear(); for (size_t i = 0; i < a.S; ++i) a.sn.push_back("stale" + std::to_string(i));
+        a.an.clear(); for (size_t i = 0; i < a.A; ++i) a.an.push_back("stale" + std::to_string(i));
+        if (a.pomdp) { a.on.clear(); for (size_t i = 0; i < a.O; ++i) a.on.push_back("stale" + std::to_string(i)); }
+        Renderer RA{rng, a, Mut{}, true};
+        std::string textA = RA.render();
+        File b = genFile(rng, true, false);
+        Mut m;
+        int mode = (int)rng.below(3);
+        if (mode == 0) { b.sn.clear(); b.an.clear(); b.on.clear(); }                       // B declares numbers only
+        if (mode <= 1 && !b.stmts.empty()) { m.cls = "unknown_name"; m.arg = 5 + 7 * (int)rng.below(50); m.decoy = false; m.target = (long)rng.below(b.stmts.size()); } // B uses a name of A
+        Renderer RB{rng, b, m, rng.coin()};
+        std::string textB = RB.render();
+        std::printf("#stat reuse_mode%d 1\n", mode);
+        runReuse(a.pomdp, textA, rng.coin(4, 5) ? b.pomdp : false, textB);
     } else if (stream == 12) {                         // garbage: no structure at all, long lines, arbitrary bytes (memory clause)
         std::string text;
         static const std::string al = "TOR:* \n\t0123456789.-+eabcstdisvluonx#";
